@@ -28,6 +28,8 @@ type ConnRec struct {
 	MaxTotal    int    `json:"maxTotal"`
 	MaxPerPath  int    `json:"maxPerPath"`
 	AllReturned bool   `json:"allReturned"`
+	Idle        bool   `json:"idle"`   // after all calls returned: no entry left in the limiter, fresh requests admitted at once
+	Rounds      int    `json:"rounds"` // storm: rounds run
 }
 
 type out struct {
@@ -38,7 +40,7 @@ type out struct {
 }
 
 func runConn(transport string, l, el int) ConnRec {
-	r := ConnRec{Op: "conn", Transport: transport, L: l, EL: el}
+	r := ConnRec{Op: "conn", Transport: transport, L: l, EL: el, Idle: true}
 	var pending func() []out // requests written by the connection and not yet answered
 	var answer func(o out)
 	var get func(ctx context.Context, p string, opts ...message.Option) error
@@ -235,5 +237,6 @@ func RunConns() []ConnRec {
 	for _, c := range [][2]int{{0, 1}, {2, 1}, {3, 2}, {1, 0}} {
 		rs = append(rs, runChurn(c[0], c[1], 150*time.Millisecond))
 	}
+	rs = append(rs, runStorm(stormRounds(), 256))
 	return rs
 }
